@@ -1058,29 +1058,32 @@ def fromV3FormPropO {V : Type} (bin : List String) (objReq : List String) (name 
            items := (kidItems kids).bind (fromV3SO bin), schema := none }
 
 /-- how fromV3RequestBodies updates its slice results, statement by statement in source order (regenerated from the
-    code as `Gen.requestBodiesUpdates`): the reference branch appends the reference, the media-type loop *replaces*
-    `formParameters` by FromV3RequestBodyFormData of the media type and appends one body parameter -/
+    code as `Gen.requestBodiesUpdates`): the reference branch appends the reference, the media-type loop assigns
+    `formParameters` once (`if formParameters == nil`, F-C17-16 repaired) from FromV3RequestBodyFormData of the first
+    form media type and appends one body parameter -/
 def requestBodiesUpdates : List (String × String) :=
-  [("bodyOrRefParameters", "append"), ("formParameters", "replace:FromV3RequestBodyFormData"),
+  [("bodyOrRefParameters", "append"), ("formParameters", "init:FromV3RequestBodyFormData"),
    ("bodyOrRefParameters", "append")]
 
 /-- the statements that update a result -/
 def updatesOf (tbl : List (String × String)) (result : String) : List String :=
   (tbl.filter (fun r => r.1 == result)).map (·.2)
 
-/-- a slice result after the media-type loop, from what the passes computed for it: replaced by every pass (the last
-    pass wins) or appended to (every pass contributes) -/
+/-- a slice result after the media-type loop, from what the passes would compute for it: assigned once (the first
+    pass wins and the later ones do not run), replaced by every pass (the last pass wins) or appended to (every pass
+    contributes) -/
 def loopResult {α : Type} (kinds : List String) (passes : List (List α)) : List α :=
-  if kinds == ["replace:FromV3RequestBodyFormData"] then passes.foldl (fun _ r => r) []
+  if kinds == ["init:FromV3RequestBodyFormData"] then passes.head?.getD []
+  else if kinds == ["replace:FromV3RequestBodyFormData"] then passes.foldl (fun _ r => r) []
   else passes.foldl (fun acc r => acc ++ r) []
 
-/-- fromV3RequestBodies ranges over the media types of the request body and *replaces* `formParameters` by
-    FromV3RequestBodyFormData of every form media type: with both form media types (one form schema object under
-    both) the kept result is the one of the second pass -/
+/-- the request body has both form media types (one form schema object under both): before the repair of F-C17-16
+    FromV3RequestBodyFormData ran once per form media type and the result of the second pass was kept -/
 def formTwice (mimes : List String) : Bool := decide ((mimes.filter isFormMime).length ≥ 2)
 
-/-- FromV3RequestBodyFormData, one inline property, as kept by fromV3RequestBodies: on a second pass the items have
-    been visited by FromV3SchemaRef before, which cleared `nullable` on them in place (F-C17-16) -/
+/-- FromV3RequestBodyFormData, one inline property: on a second pass (`twice`) the items have been visited by
+    FromV3SchemaRef before, which cleared `nullable` on them in place; fromV3RequestBodies keeps the first pass
+    (`twice = false`) since the repair of F-C17-16 -/
 def fromV3FormPropT {V : Type} (twice : Bool) (bin : List String) (objReq : List String) (name : String) (s : Sch V) : PRef2 V :=
   match s with
   | .ref k n => .ref (if k = RK.def3 then RK.par2 else k) n
@@ -1116,7 +1119,7 @@ def fromV3Body {V : Type} (bin : List String) (shared : Bool) (origName : String
   | .val b =>
     if b.mimes.any isFormMime then
       match b.schema with
-      | some (.node oh kids) => fromV3FormFields (formTwice b.mimes) bin oh.req kids
+      | some (.node oh kids) => fromV3FormFields false bin oh.req kids
       | _ => []
     else if b.mimes.isEmpty then []
     else [.val { name := origName, loc := "body", required := b.required, cons := {}, items := none,
@@ -1550,14 +1553,14 @@ def formOKBack {V : Type} : PRef2 V → Bool
   | .ref _ _ => false
   | .val p => p.loc == "formData" && itemsOKBack p.items && p.items.all noBinary2 && formFmtOK p
 
-/-- F-C17-16 (FormItemsNullableLost): under both form media types the items of an array form parameter come back
-    from a second FromV3SchemaRef pass, after the first has cleared `nullable` in place -/
+/-- the former class of F-C17-16 (FormItemsNullableLost, repaired): under both form media types the items of an array
+    form parameter came back from a second FromV3SchemaRef pass, after the first had cleared `nullable` in place.
+    No theorem excludes it any more; it is kept for the regression theorem. -/
 def formItemsTwice {V : Type} (cs : List String) : PRef2 V → Bool
   | .ref _ _ => false
   | .val p => p.loc == "formData" && formTwice cs && p.items.any hasXnull
 
-def inputOKFBack {V : Type} (cs : List String) (q : PRef2 V) : Bool :=
-  inputOKBack cs q || (formOKBack q && !formItemsTwice cs q)
+def inputOKFBack {V : Type} (cs : List String) (q : PRef2 V) : Bool := inputOKBack cs q || formOKBack q
 
 def opInputsBack {V : Type} (dc : List String) (o : Op2 V) : Bool :=
   o.params.all (inputOKFBack (effConsumes dc o)) && o.responses.all (fun kr => respSimpleBack o.produces kr.2)
